@@ -330,11 +330,16 @@ Qed.
 Lemma texts_add_attrs : forall t a, texts (add_attrs t a) = texts t.
 Proof. intros. unfold add_attrs. apply texts_set_attrs. Qed.
 
+Lemma texts_finish_attrs : forall parsed mrow merged, texts (finish_attrs parsed mrow merged) = texts parsed.
+Proof.
+  intros parsed mrow merged. unfold finish_attrs. destruct merged; rewrite ?texts_set_attrs, texts_add_attrs, texts_set_attrs; reflexivity.
+Qed.
+
 Lemma finish_row_yield : forall mrow st t, finish_row mrow st = Ok t -> strip (texts t) = strip (stack_yield st).
 Proof.
   intros mrow st t H. unfold finish_row in H. apply bind_ok in H. destruct H as [st1 [R H]].
   rewrite <- (reduce_yield _ _ _ R). destruct st1 as [|top [|x r]]; try discriminate.
-  inversion H; subst t. clear H. rewrite texts_set_ann, texts_add_attrs, texts_set_attrs.
+  inversion H; subst t. clear H. rewrite texts_set_ann, texts_finish_attrs.
   rewrite stack_yield_cons, stack_yield_nil. cbn [app]. unfold frame_yield.
   destruct (f_kids top) as [|c [|d r]] eqn:K.
   - reflexivity.
